@@ -912,6 +912,72 @@ def check_reflect_direct(case: dict, env: Env) -> Tuple[List[Tuple[str, str]], A
         P.close()
 
 
+FIXTURE_HISTORIES = [list(h) for n in (2, 3) for h in itertools.product(("present", "entry-removed", "file-deleted"), repeat=n)]
+
+
+def check_fixture_history(hist: List[str], env: Env, utter_key: str = "hi") -> Tuple[List[Tuple[str, str]], Any]:
+    """History of fixture-file states at ONE path, a reflecting call (real reflect(), real FixtureLLMAdapter, real file)
+    after each: with the fixture for the prompt present the completion is used; once the entry is removed from the file
+    or the file is deleted, reflect() must fail or return no entries - whatever earlier calls in this process loaded."""
+    from clematis.adapters import llm as llm_mod
+    out = []
+    path = os.path.join(env.scratch, "fixtures", "history.jsonl")
+    cfg = {"t3": {"allow_reflection": True,
+                  "reflection": {"backend": "llm", "summary_tokens": 8, "topk_snippets": 3, "embed": False},
+                  "llm": {"fixtures": {"enabled": True, "path": path}}},
+           "scheduler": {"budgets": {"ops_reflection": 2}}}
+    # learn the prompt hash with a recording subclass (used for this probe only, on a different path)
+    seen = {}
+
+    class Rec(REAL_FIXTURE_ADAPTER):  # type: ignore[misc,valid-type]
+        def generate(self, prompt, max_tokens, temperature):
+            seen["h"] = llm_mod._prompt_hash(prompt)
+            self._map.setdefault(seen["h"], "probe")
+            return REAL_FIXTURE_ADAPTER.generate(self, prompt, max_tokens, temperature)
+
+    def mk_bundle():
+        ctx = types.SimpleNamespace(agent_id="A", turn_id=1, now_ms=W.NOW_MS, now_iso="2025-06-01T00:00:00+00:00")
+        return ReflectionBundle(ctx=ctx, state_view=None, plan=types.SimpleNamespace(reflection=True), utter=UTTERS[utter_key], snippets=["One."])
+
+    P = Patches()
+    try:
+        P.set(refl_mod, "FixtureLLMAdapter", Rec)
+        probe_cfg = copy.deepcopy(cfg)
+        probe_cfg["t3"]["llm"]["fixtures"]["path"] = env.fx_ok
+        REAL_REFLECT(mk_bundle(), probe_cfg)
+    finally:
+        P.close()
+    if "h" not in seen:
+        raise HarnessError("fixture history: could not learn the prompt hash")
+    obs = []
+    for i, stt in enumerate(hist):
+        if stt == "present":
+            with open(path, "w", encoding="utf-8") as f:
+                f.write(json.dumps({"prompt_hash": seen["h"], "completion": "alpha beta gamma"}) + "\n")
+        elif stt == "entry-removed":
+            with open(path, "w", encoding="utf-8") as f:
+                f.write(json.dumps({"prompt_hash": "0" * 64, "completion": "unrelated entry"}) + "\n")
+        else:
+            if os.path.exists(path):
+                os.unlink(path)
+        try:
+            r = REAL_REFLECT(mk_bundle(), copy.deepcopy(cfg))
+            got = ("ok", len(r.memory_entries), r.summary)
+        except HarnessError:
+            raise
+        except Exception as e:  # the orchestrator turns this into "no entries"
+            got = ("raises", 0, type(e).__name__)
+        obs.append(got)
+        if stt == "present" and not (got[0] == "ok" and got[1] >= 1):
+            out.append(("fixture-history:present-not-used", "step %d of %r: fixture present but reflect() gave %r" % (i + 1, hist, got)))
+        if stt != "present" and got[1] != 0:
+            out.append(("fixture-history:memory-written:%s" % stt,
+                        "step %d of %r: fixture %s, yet reflect() returned %d entries (summary %r)" % (i + 1, hist, stt, got[1], got[2])))
+    if os.path.exists(path):
+        os.unlink(path)
+    return out, tuple(o[0] for o in obs)
+
+
 def enumerate_reflect_direct(thorough: bool) -> List[dict]:
     utters = [k for k in UTTERS if k != "real"]
     maxlen = 3 if thorough else 2
@@ -1126,6 +1192,21 @@ def run(run: Run) -> None:
     d1 = enumerate_reflect_direct(run.thorough)
     run.notes["cases_reflect_direct"] = len(d1)
     run.pmap(_reflect_worker, d1, extra=(run.scratch,))
+    # fixture-file histories at one path (one process: whatever an earlier call loaded must not outlive the file)
+    envh = Env(run.scratch)
+    try:
+        for hist in FIXTURE_HISTORIES:
+            res, oc = check_fixture_history(hist, envh)
+            run.add("transitions", len(hist))
+            run.add("validated", len(hist))
+            run.add("fixture_history_cases")
+            run.distinct("states", jkey({"fixture_history": hist}))
+            run.distinct("outcomes", ["fixture-history", list(oc)])
+            for sig, what in res:
+                run.violation(sig, what, {"kind": "fixture-history", "history": hist})
+    finally:
+        envh.close()
+    run.notes["fixture_histories"] = len(FIXTURE_HISTORIES)
     d2 = enumerate_writer_direct(run.thorough)
     run.notes["cases_writer_direct"] = len(d2)
     # one process: the id/ts function table must see every case
@@ -1161,6 +1242,8 @@ def replay(case):
             return sorted(set(check_hash_seeds(base, list(case.get("seeds") or HASH_SEEDS))[0]))
         if kind == "reflect":
             return sorted(set(check_reflect_direct(case, env)[0]))
+        if kind == "fixture-history":
+            return sorted(set(check_fixture_history(case["history"], env)[0]))
         if kind == "writer":
             return sorted(set(check_writer_direct(case, {})[0]))
         if kind == "pair":
